@@ -14,6 +14,25 @@ import numpy as np
 TOL = 1e-9
 
 
+def guarded(fn):
+    """an exception escaping a check function comes from a call of the implementation on a valid input that the function did not expect
+    to raise: it is reported as a violation with the input, never as a crash of the harness"""
+    import functools
+    import traceback
+
+    @functools.wraps(fn)
+    def wrapper(res, *a, **k):
+        try:
+            return fn(res, *a, **k)
+        except Exception as e:  # noqa: BLE001
+            tb = traceback.format_exc().strip().splitlines()
+            res.violation(f"{fn.__name__}:unexpected-exception", "a call of the implementation raised on an input of the property's domain",
+                          input=dict(args=repr(a)[:600]), error=repr(e)[:200], where=" | ".join(tb[-4:])[:400])
+            return None
+
+    return wrapper
+
+
 # --------------------------------------------------------------------------------------------------------------- exact
 def fr_str(q):
     q = Fr(q)
